@@ -79,6 +79,13 @@ func (c08) Plan(tier string, seed int64) []core.Scenario {
 		}
 		out = append(out, core.Sc("multiclose").WithN("end", i%4).WithL(lens))
 	}
+	ns := 4
+	if tier == "thorough" {
+		ns = 60
+	}
+	for i := 0; i < ns; i++ {
+		out = append(out, core.Sc("stale-cancel").WithN("variant", i%4))
+	}
 	for i := 0; i < nw; i++ {
 		out = append(out, core.Sc("w1").WithN("variant", i%4))
 		out = append(out, core.Sc("w5").WithN("variant", i%3))
@@ -97,6 +104,8 @@ func (p c08) Run(sc core.Scenario) core.Result {
 		p.term(sc, r)
 	case "multiclose":
 		p.multiClose(sc, r)
+	case "stale-cancel":
+		p.staleCancel(sc, r)
 	case "w1":
 		p.w1(sc, r)
 	case "w5":
@@ -325,6 +334,70 @@ func (c08) term(sc core.Scenario, r *core.R) {
 	r.Obs("terminations", 1)
 	r.Sig(core.Log.Signature())
 	r.Sample(map[string]interface{}{"cause": cause + race, "after_values": k, "consumer": []string{"attentive", "slow"}[sc.I("cons")], "received": len(keys), "handler_sent": sent, "closed": gA.isClosed()})
+}
+
+// staleCancel: subscription A dies with its connection; after the reconnect subscription B is opened
+// (the server numbers channels per connection, so B reuses A's channel id); then A's context is
+// cancelled. B must be unaffected: it delivers everything and closes when its handler closes.
+func (c08) staleCancel(sc core.Scenario, r *core.R) {
+	env := NewEnv(EnvOpt{})
+	defer env.Shutdown()
+	pol := noisePolicy(sc)
+	defer pol.Install()()
+	cl, err := env.NewClient(ClientOpt{Opts: []jsonrpc.Option{jsonrpc.WithReconnectBackoff(5*time.Millisecond, 20*time.Millisecond)}})
+	if err != nil {
+		r.Inconclusive("client: %v", err)
+		return
+	}
+	bg := context.Background()
+	v := sc.I("variant")
+	actx, acancel := context.WithCancel(bg)
+	defer acancel()
+	tokA, tokB := Tok("a"), Tok("b")
+	chA, err := cl.Sub(actx, tokA, 0, svc.SInfinite)
+	if err != nil {
+		r.Inconclusive("sub A: %v", err)
+		return
+	}
+	gA := drainItems(chA, 0, -1, nil)
+	core.Eventually(core.Grace, func() bool { return gA.n() > 3 })
+	if v%2 == 0 {
+		env.Px.KillAll(wsproxy.RST)
+	} else {
+		env.Px.KillAll(wsproxy.FIN)
+	}
+	if !probeUntilHealthy(cl, r, 2*core.Grace) {
+		r.Inconclusive("link never healthy again")
+		return
+	}
+	if !core.WaitCh(gA.done, core.Grace) {
+		r.Violate("channel-not-closed:loss", "stream A still open after its connection was lost and the link is healthy again")
+	}
+	env.Svc.Hold(tokB)
+	chB, err := cl.Sub(bg, tokB, 30, svc.SGoroutine)
+	if err != nil {
+		r.Violate("subscribe-failed", "subscription B after the reconnect failed: %v", err)
+		return
+	}
+	gB := drainItems(chB, 0, -1, nil)
+	if v >= 2 {
+		env.Svc.Release(tokB)
+		core.Eventually(core.Grace, func() bool { return gB.n() > 0 })
+	}
+	acancel() // the stale subscription's context is cancelled only now
+	time.Sleep(5 * time.Millisecond)
+	p := Tok("p")
+	cl.Echo(bg, p, "")
+	env.Svc.Release(tokB)
+	if !core.WaitCh(gB.done, core.Grace) {
+		r.Violate("channel-not-closed:stale-cancel", "subscription B (opened after a reconnect) never closed although its handler sent 30 values and closed; cancelling the context of an older, already dead subscription disturbed it (received %d); events: %s", gB.n(), core.Log.Tail(30))
+	}
+	checkSeq(r, "stale-cancel", tokB, gB.snapshot(), 30, true)
+	checkSeq(r, "stale-cancel(A)", tokA, gA.snapshot(), int(env.Svc.Get(tokA).Sent)+1, false)
+	r.Key(fmt.Sprintf("stale-cancel v%d", v), true)
+	r.Obs("terminations", 2)
+	r.Sig(core.Log.Signature())
+	r.Sample(map[string]interface{}{"scenario": "cancel of a dead subscription after a reconnect, new subscription open", "variant": v, "B_received": gB.n()})
 }
 
 // multiClose: several channels open at once on one connection are closed by their handlers at
